@@ -487,20 +487,44 @@ def classify_handshake(stream):
     if not banner.startswith(b'SSH-2.0-') and not banner.startswith(b'SSH-1.99-'):
         return 'unclear', 'not an SSH-2 banner'
     rest = d[pos:]
-    if len(rest) < 5:
-        return 'ill', 'no packet after banner'
-    plen, pad = struct.unpack('>IB', rest[:5])
-    if plen > 262144:
-        return 'ill', 'huge packet length'
-    if len(rest) < 4 + plen:
-        return 'ill', 'truncated packet'
-    if (4 + plen) % 8 != 0 or plen < 1 + pad:
-        return 'ill', 'bad framing'
-    payload = rest[5:5 + plen - pad - 1]
-    if not payload:
-        return 'ill', 'empty payload'
-    if payload[0] in (MSG_DEBUG, MSG_IGNORE):
-        return 'unclear', 'debug/ignore before KEXINIT'
+    skipped = 0
+    while True:
+        if len(rest) < 5:
+            return 'ill', 'no packet after banner'
+        plen, pad = struct.unpack('>IB', rest[:5])
+        if plen > 262144:
+            return 'ill', 'huge packet length'
+        if len(rest) < 4 + plen:
+            return 'ill', 'truncated packet'
+        if (4 + plen) % 8 != 0 or plen < 1 + pad:
+            return 'ill', 'bad framing'
+        payload = rest[5:5 + plen - pad - 1]
+        if not payload:
+            return 'ill', 'empty payload'
+        if payload[0] in (MSG_DEBUG, MSG_IGNORE):
+            # RFC 4253 section 11: either party may send these at any time after the identification strings; the KEXINIT is the
+            # packet that follows them.  A padding shorter than 4 or a body that is not what section 11 lays out stays unclear.
+            if pad < 4:
+                return 'unclear', 'padding < 4 (debug/ignore packet)'
+            body = payload[1:]
+            try:
+                r = Reader(body)
+                if payload[0] == MSG_DEBUG:
+                    r.take(1)
+                    r.string()
+                    r.string()
+                else:
+                    r.string()
+                if r.left():
+                    return 'unclear', 'debug/ignore packet with trailing bytes'
+            except WireError:
+                return 'unclear', 'debug/ignore packet whose body does not parse'
+            rest = rest[4 + plen:]
+            skipped += 1
+            if skipped > 64:
+                return 'unclear', 'many debug/ignore packets'
+            continue
+        break
     if payload[0] != MSG_KEXINIT:
         return 'ill', 'first packet type %d' % payload[0]
     if pad < 4:
